@@ -2045,6 +2045,47 @@ def gen_listings():
         else:
             acc.append("store " + re.sub(r"\s+", "", (m.group(1) or m.group(2) or "")))
     o.append(f"def cDetectAccesses : List String := {lean_strs(acc)}")
+    # C08: the Join implementations and the join site in compress_subtree_wide (who gets which slice)
+    jtxt = strip_comments(src("src/join.rs"))
+    bodies = {}
+    for ty in ["SerialJoin", "RayonJoin"]:
+        m = re.search(r"impl\s+Join\s+for\s+%s\s*\{" % ty, jtxt)
+        if not m:
+            raise TranslationBroken(A, f"src/join.rs: impl Join for {ty} not found")
+        blk = jtxt[m.end() - 1:match_brace(jtxt, m.end() - 1)]
+        m2 = re.search(r"fn\s+join\s*<[^{]*\{", blk, re.S)
+        if not m2:
+            raise TranslationBroken(A, f"src/join.rs: {ty}::join not found")
+        fb = blk[m2.end() - 1:match_brace(blk, m2.end() - 1)]
+        bodies[ty] = re.sub(r"\s+", "", fb[1:-1])
+    o.append(f"def joinBody_Serial : String := {json.dumps(bodies['SerialJoin'])}")
+    o.append(f"def joinBody_Rayon : String := {json.dumps(bodies['RayonJoin'])}")
+    params, wbody = find_fn(A, L, r"fn\s+compress_subtree_wide\s*<")
+    wb = strip_comments(wbody)
+    m = re.search(r"let\s*\(\s*(\w+)\s*,\s*(\w+)\s*\)\s*=\s*input\.split_at\(", wb)
+    m3 = re.search(r"let\s*\(\s*(\w+)\s*,\s*(\w+)\s*\)\s*=\s*cv_array\.split_at_mut\(\s*([^;]+?)\s*\)\s*;", wb)
+    mj = re.search(r"J::join\(\s*\|\|\s*compress_subtree_wide::<J>\(([^)]*)\)\s*,\s*\|\|\s*compress_subtree_wide::<J>\(([^)]*)\)\s*,?\s*\)", wb, re.S)
+    if not (m and m3 and mj):
+        raise TranslationBroken(A, "compress_subtree_wide: input.split_at / cv_array.split_at_mut / J::join(|| .., || ..) not found in this shape")
+    o.append(f"def wideInputSplit : List String := {lean_strs([m.group(1), m.group(2)])}")
+    nows = lambda t: re.sub(r"\s+", "", t)
+    o.append(f"def wideOutSplit : List String := {lean_strs([m3.group(1), m3.group(2), nows(m3.group(3))])}")
+    o.append(f"def wideLeftArgs : List String := {lean_strs([a.strip() for a in mj.group(1).split(',')])}")
+    o.append(f"def wideRightArgs : List String := {lean_strs([a.strip() for a in mj.group(2).split(',')])}")
+    # C: the same site in c/blake3.c (serial build and TBB seam)
+    params, cb = find_fn(A, "c/blake3.c", r"size_t\s+blake3_compress_subtree_wide\s*\(")
+    cb = strip_comments(cb)
+    mr = re.search(r"uint8_t\s*\*\s*right_cvs\s*=\s*&cv_array\[\s*([^\]]+?)\s*\]\s*;", cb)
+    ml = re.search(r"left_n\s*=\s*blake3_compress_subtree_wide\(([^;]*)\)\s*;", cb, re.S)
+    mrr = re.search(r"right_n\s*=\s*blake3_compress_subtree_wide\(([^;]*)\)\s*;", cb, re.S)
+    mt = re.search(r"blake3_compress_subtree_wide_join_tbb\(([^;]*)\)\s*;", cb, re.S)
+    if not (mr and ml and mrr and mt):
+        raise TranslationBroken(A, "c/blake3.c blake3_compress_subtree_wide: right_cvs / the two recursive calls / the TBB seam call not found")
+    clean = lambda t: [re.sub(r"\s+", "", a) for a in t.split(",")]
+    o.append(f"def cWideRightCvs : String := {json.dumps(nows(mr.group(1)))}")
+    o.append(f"def cWideLeftArgs : List String := {lean_strs(clean(ml.group(1)))}")
+    o.append(f"def cWideRightArgs : List String := {lean_strs(clean(mrr.group(1)))}")
+    o.append(f"def cWideTbbArgs : List String := {lean_strs(clean(mt.group(1)))}")
     o.append("")
     o.append("end B3.Gen.Listings")
     return "\n".join(o) + "\n"
